@@ -653,9 +653,14 @@ class TaskPool:
                     TASK_STATUS_FAILED,
                     TASK_STATUS_SUCCEEDED
             ):
-                for message in json.loads(outputs_str):
-                    itask.state.outputs.set_message_complete(message)
-                    self.data_store_mgr.delta_task_output(itask, message)
+                completed = json.loads(outputs_str)
+                # {trigger: message} - match triggers, not messages
+                # (BACK COMPAT: a list of messages in Cylc >8.0.0,<8.3.0).
+                by_trigger = isinstance(completed, dict)
+                for trigger, message, _ in itask.state.outputs:
+                    if (trigger if by_trigger else message) in completed:
+                        itask.state.outputs.set_message_complete(message)
+                        self.data_store_mgr.delta_task_output(itask, message)
 
             if platform_name and status != TASK_STATUS_WAITING:
                 itask.summary['platforms_used'][
